@@ -73,12 +73,14 @@ class Scope:
 
 
 class Gen:
-    def __init__(self, rng, max_stmts=40, max_depth=3, risk=0.01, inject_fail=0.3, py_compat=True, no_mutation=False):
+    def __init__(self, rng, max_stmts=40, max_depth=3, risk=0.01, inject_fail=0.3, py_compat=True, no_mutation=False, tick_p=0.04):
         self.r = rng
         self.max_stmts = max_stmts
         self.max_depth = max_depth
         self.risk = risk
         self.inject_fail = inject_fail
+        self.tick_p = tick_p
+        self.ntick = 0
         self.py = py_compat
         self.no_mutation = no_mutation
         self.nv = 0
@@ -173,8 +175,19 @@ class Gen:
     def qs(self, s):
         return '"' + s.replace("\\", "\\\\").replace('"', '\\"') + '"'
 
+    tick_p = 0.04
+    ntick = 0
+
     def expr(self, sc, ty, d=0):
-        """Expression of type ty. Never mutates anything."""
+        """Expression of type ty. Never mutates anything. Now and then a subexpression is routed through
+        tk(n, x), which emits n and returns x: evaluation order of operands becomes part of the transcript."""
+        ex = self._expr(sc, ty, d)
+        if self.tick_p and d <= 3 and self.p(self.tick_p):
+            self.ntick += 1
+            return "tk(%d, %s)" % (self.ntick, ex)
+        return ex
+
+    def _expr(self, sc, ty, d=0):
         r = self.r
         vs = self.vars_of(sc, ty)
         if d >= self.max_depth or self.p(0.25):
@@ -675,7 +688,12 @@ class Gen:
                     self.emit_line(indent + 1, "%s[%s %% len(%s)] = %s" % (n, e(INT), n, e(et)))
             elif k == 9 and v.ty == LI:
                 self.emit_line(indent, "if %s:" % n)
-                self.emit_line(indent + 1, "%s[%s %% len(%s)] %s %s" % (n, e(INT), n, self.ch(["+=", "-=", "*="]), e(INT)))
+                if self.p(0.5):
+                    # the element is loaded before the right-hand side runs, although the right-hand side changes it
+                    i = self.ch(["0", "-1", "len(%s) // 2" % n])
+                    self.emit_line(indent + 1, "%s[%s] %s bump(%s, %s)" % (n, i, self.ch(["+=", "-=", "*="]), n, i))
+                else:
+                    self.emit_line(indent + 1, "%s[%s %% len(%s)] %s %s" % (n, e(INT), n, self.ch(["+=", "-=", "*="]), e(INT)))
             else:
                 if self.p(0.3):
                     self.emit_line(indent, "%s.clear()" % n)
@@ -697,6 +715,9 @@ class Gen:
                 key = kx()
                 if self.p(self.risk * 5):
                     self.emit_line(indent, "%s[%s] += %s" % (n, key, e(INT)))
+                elif self.p(0.4):
+                    self.emit_line(indent, "if %s in %s:" % (key, n))
+                    self.emit_line(indent + 1, "%s[%s] += bump(%s, %s)" % (n, key, n, key))
                 else:
                     self.emit_line(indent, "%s[%s] = %s.get(%s, 0) + %s" % (n, key, n, key, e(INT)))
             elif k == 7 and v.ty == DSI:
@@ -933,6 +954,11 @@ class Gen:
         "fail(\"boom\")",
         "emit(\"%d\" % \"x\")",
         "emit(\"abc\"[10])",
+        "{\"a\": 1}[\"zz9\"] += 1 // 0",
+        "[1, 2][5] += len(5)",
+        "emit(tk(0, 1) // tk(0, 0), tk(0, [])[3])",
+        "emit([tk(0, 1), tk(0, 2)][tk(0, 7)])",
+        "emit({tk(0, \"a\"): tk(0, 1)}[tk(0, \"b\")])",
     ]
 
     # ---- program
@@ -954,6 +980,12 @@ class Gen:
             sc.fns.append(f)
         self.emit_line(0, "def undefined_fn_arity():")
         self.emit_line(1, "return 0")
+        self.emit_line(0, "def tk(n, x):")
+        self.emit_line(1, "emit(\"tk\", n)")
+        self.emit_line(1, "return x")
+        self.emit_line(0, "def bump(c, k):")
+        self.emit_line(1, "c[k] = c[k] + 100")
+        self.emit_line(1, "return 1")
         # a few initial variables of every kind so expressions have material
         for ty in [INT, STR, LI, DSI, LS, LLI, DIS, TIS, BOOL]:
             self.new_var_stmt(sc, 0, ty)
